@@ -25,4 +25,7 @@ with open(os.path.join(root, 'RESULTS.md'), 'w') as f:
         f.write('| %s | %s | %s | %s | `%s` | %s |\n' % r)
     n = len(rows); c = sum(1 for r in rows if r[3] == 'caught')
     f.write('\n%d seeds, %d caught by the property\'s own quick check.\n' % (n, c))
+    notes = os.path.join(root, 'NOTES.md')
+    if os.path.exists(notes):
+        f.write('\n' + open(notes).read())
 print('written', len(rows))
